@@ -11,8 +11,12 @@ mkdir -p "$ws" "$tgt" "$(dirname "$out")"
 rsync -a --delete --exclude target --exclude '.git' "$src"/ "$ws"/ || exit 2
 feat=()
 [ "$cfg" = pyo3 ] && feat=(--features pyo3)
-# force the wrapper to run: cargo's freshness cache would otherwise skip rustc for altrios-core
-rm -rf "$tgt"/debug/.fingerprint/altrios-core-* 2>/dev/null
+# force the wrapper to run: cargo's freshness cache would otherwise skip rustc for altrios-core.
+# The workspace's own proc-macro crate must be rebuilt from THIS tree as well: cargo decides freshness of path
+# dependencies by mtime, rsync -a keeps mtimes, so after a variant with a newer proc-macro source had been built into the
+# shared target directory, an older (e.g. the unchanged) source would be taken for fresh and the stale macro expanded.
+rm -rf "$tgt"/debug/.fingerprint/altrios-* "$tgt"/debug/deps/libaltrios_proc_macros-* "$tgt"/debug/deps/altrios_proc_macros-* 2>/dev/null
+find "$ws" -type f \( -name '*.rs' -o -name 'Cargo.toml' \) -exec touch {} + 2>/dev/null
 rm -f "$out"
 ( cd "$ws" && CARGO_NET_OFFLINE=true CARGO_TARGET_DIR="$tgt" RUSTC_WORKSPACE_WRAPPER="$here/wrap.sh" \
     VERIF_DUMP_OUT="$out" VERIF_DUMP_CRATE=altrios_core \
@@ -20,7 +24,8 @@ rm -f "$out"
 rc=$?
 rm -rf "$ws"
 # drop workspace members' own artefacts; keep third-party dependency metadata only
-rm -rf "$tgt"/debug/.fingerprint/altrios-core-* "$tgt"/debug/deps/libaltrios_core-* "$tgt"/debug/deps/altrios_core-* "$tgt"/debug/incremental 2>/dev/null
+rm -rf "$tgt"/debug/.fingerprint/altrios-* "$tgt"/debug/deps/libaltrios_core-* "$tgt"/debug/deps/altrios_core-* \
+       "$tgt"/debug/deps/libaltrios_proc_macros-* "$tgt"/debug/deps/altrios_proc_macros-* "$tgt"/debug/incremental 2>/dev/null
 if [ $rc -ne 0 ] || [ ! -s "$out" ]; then
   echo "EXTRACTION-FAILED cfg=$cfg rc=$rc (see $out.log)" >&2
   tail -n 30 "$out.log" >&2
